@@ -325,6 +325,13 @@ class ConcEngine(object):
 
         def make_body(ti, ops, store):
             def body():
+                if mp and w.run.at_fork_child:
+                    # this task is a process forked NOW (tasks may start late): the child's fork handlers run
+                    for h in list(w.run.at_fork_child):
+                        try:
+                            h()
+                        except Exception:  # CPython reports and ignores exceptions of fork handlers
+                            res.flags.add("at-fork-handler-raised")
                 for k, op in enumerate(ops):
                     c = Call(ti, k, op)
                     calls.append(c)
